@@ -1,12 +1,15 @@
 (* Plan.v — the semantic IR of emitted conversion code (DESIGN 3.1). One constructor per
    code template of the builders; two sorts: vplan = Build (yields a value from the current
    source expression), aplan = Assign (updates an l-value given its old content). *)
-From Coq Require Import List NArith Bool.
+From Coq Require Import List NArith ZArith Bool.
 From GV Require Import Base Ty Conf.
 Import ListNotations.
 Open Scope N_scope.
 
 Inductive wrapk := WNone | WKeepPtr | WAddr.
+
+(* what a case of an enum switch does: assign a member value, nothing, panic, return an error *)
+Inductive eaction := EASet (v : Z) | EAIgnore | EAPanic | EAError.
 
 (* how an argument of a called function / method is supplied *)
 Inductive argsrc := ArgSource | ArgCtx (t : ty) | ArgConv.
@@ -33,6 +36,8 @@ Inductive vplan :=
 | PInit (init : vplan) (to_ptr : bool) (a : aplan)
                                         (* default FUNC: x := init(source) [; x := &x]; a(x); x *)
 | PMakeList (elem : ty) (a : aplan)     (* x := make([]T, len(source)); a(x); x — list from a fixed array *)
+| PEnum (init : option (vplan * bool)) (t : ty) (cases : list (Z * eaction)) (dflt : eaction)
+                                        (* var x T (or default FUNC); switch source { case v: action ... default: action }; x *)
 with aplan :=
 | ASet (v : vplan)                      (* lhs = v *)
 | APtr (v : vplan)                      (* if s != nil { x := v(deref s); lhs = &x } *)
